@@ -53,6 +53,16 @@ CHECKS = {
     "C19": _c("For every signature shape, annotation style, dependency state and call site the injected call equals the explicit-lookup call; two "
               "concurrent injected calls in different contexts stay separate under all schedule prefixes.",
               "signature/annotation/context-state selectors and schedule prefix as solver variables"),
+    "C14": _c("For every combination of hard-coded and external values of two kwargs keys (scalar / None / nested dict), type spelling, alias form, "
+              "config-only children and grandchild configuration the constructors receive the reference deep merge, names are remapped only as documented, "
+              "and the configuration object is reusable and untouched.",
+              "configuration layers and type/alias spellings as solver variables"),
+    "C15": _c("For 24 kinds of endings, 0-2 children, 6 moments and deviation-bounded schedules all root teardown callbacks run once in reverse order before "
+              "run_application returns/raises with the documented outcome; the CLI exit code is a symbolic integer in a data-symbolic harness.",
+              "ending kind, moment and schedule deviations as solver variables; exit code as a symbolic integer through the real runner"),
+    "C16": _c("For every generated layout of files, --set overrides, tags, service layouts and --service/ASPHALT_SERVICE combination the real click command "
+              "hands run_application exactly the reference pipeline's result; every --set key of length <= 5 over {a,b,.,\\} is split as specified.",
+              "configuration layouts and key characters as solver variables"),
 }
 
 _PENDING = "check not built yet in this round (planned: DESIGN.md section 7); not claimed until it runs"
